@@ -43,8 +43,8 @@ enum Op {
     CountBroadcast(u64),
 }
 
-const LANES: [u64; 2] = [1, 2];
-const REMOTES: [u8; 2] = [0, 1];
+const LANES: [u64; 3] = [1, 2, 3];
+const REMOTES: [u8; 3] = [0, 1, 2];
 
 fn rid(r: u8) -> Uuid {
     Uuid::from_u128(500 + r as u128)
@@ -232,7 +232,7 @@ fn links_leg(ctx: &Ctx) {
         return;
     }
     let t0 = Instant::now();
-    let depth = if ctx.quick() { 6 } else { 8 };
+    let depth = if ctx.quick() { 20 } else { 30 };
     let stats = bfs_classified(
         Vec::<Op>::new(),
         |h| build(h).map(|s| s.enabled()).unwrap_or_default(),
@@ -266,7 +266,7 @@ fn links_leg(ctx: &Ctx) {
         rule: "BFS over operation histories on the real Links registry, de-duplicated by Links::verif_key + reference flags; every reporter is read after every operation".into(),
         samples: stats.sample_paths.iter().map(|p| json!(format!("{:?}", p))).collect(),
         exhaustive: !stats.capped,
-        bounds: json!({"depth": depth, "depth_reached": stats.depth_reached, "fixpoint": stats.fixpoint, "lanes": 2, "remotes": 2}),
+        bounds: json!({"depth": depth, "depth_reached": stats.depth_reached, "fixpoint": stats.fixpoint, "lanes": LANES.len(), "remotes": REMOTES.len()}),
         wall_s: t0.elapsed().as_secs_f64(),
     });
 }
